@@ -266,7 +266,9 @@ def build_hmc(arg):
     jacobians_list = create_jacobians(json_list)
     if arg.clock is not None and arg.heights == "ratio":
         jacobians_list.append("tree")
-    if arg.coalescent in COALESCENT_PIECEWISE:
+    # centred parameterisation: the GMRF is placed directly on the unconstrained log sizes.
+    # Non-centred: theta = CumSumExp(u) sits between u and the GMRF's log(theta): keep it.
+    if arg.coalescent in COALESCENT_PIECEWISE and not arg.coalescent_non_centered:
         jacobians_list.remove("coalescent.theta")
 
     joint_jacobian = {
